@@ -202,7 +202,11 @@ def recorded_from_pre_value(ck, fn, rec_stmt, field, normal_region, closure):
             if dd0[0] == "stmt" and dd0[3]["rv"]["k"] == "use" and dd0[3]["rv"]["op"].get("k") in ("copy", "move") and "p" not in dd0[3]["rv"]["op"]["pl"] and \
                     dd0[3]["rv"]["op"]["pl"]["l"] > fn.arg_count:
                 sub = df.defs_through_copies(fn, dd0[3]["rv"]["op"]["pl"]["l"])
-                alld.extend(sub if sub else [dd0])
+                # (the slot is also filled on the way back - the Rollback arm of a `match apply_mode` folded into a helper: not the
+                # recording this rule is about)
+                rb_region = rollback_regions(fn)[0]
+                kept = [d_ for d_ in sub if d_[1] in normal_region or d_[1] not in rb_region]
+                alld.extend((kept or sub) if sub else [dd0])
             else:
                 alld.append(dd0)
         for dd in alld:
